@@ -529,12 +529,28 @@ def replay_skips(ctx, r):
     loop header without invoking the callback (and without returning an error) tests only the record's
     version against the checkpoint version."""
     prog = ctx.prog
-    for b in prog.bodies.values():
-        cbsites = [s for s in b.calls() if s.path in FN_TRAIT_CALLS and s.callee.get("rk") != "virtual"
+    from ..prov import _closure_sites
+    work = {}
+    for b0 in prog.bodies.values():
+        cbsites = [s for s in b0.calls() if s.path in FN_TRAIT_CALLS and s.callee.get("rk") != "virtual"
                    and any(how == "param" for _, how in prog.call_targets(s))
                    and "INDEX_MUTATE" in sem_set(ctx.may.site_events(s))]
         if not cbsites:
             continue
+        if b0.is_closure:
+            # the per-record work sits in a closure handed to an iterator adaptor (`reader.try_fold(.., |acc, e| ..)`):
+            # judged in the flat view of the function the closure is written in, where the adaptor is the loop it means
+            for (pb, _bb, _rv) in _closure_sites(prog, b0.path):
+                V = ctx.flat(pb, stop=tuple(sorted(cb.path for cb in replay_callbacks(ctx))))
+                for c in cbsites:
+                    for fs in ctx.flat_sites_of(V, c):
+                        if fs.kind == "call" and not V.blocks[fs.bb].get("cleanup"):
+                            work.setdefault(id(V), (V, []))[1].append(fs)
+            if not any(True for _ in work):
+                work.setdefault(id(b0), (b0, []))[1].extend(cbsites)
+        else:
+            work.setdefault(id(b0), (b0, []))[1].extend(cbsites)
+    for (b, cbsites) in work.values():
         sl = Slicer(ctx.world, b)
         for c in cbsites:
             # loop headers: `next` calls that dominate the callback and can be reached again from it
@@ -736,22 +752,9 @@ def highest_version_accumulator(ctx, r):
     from ..prov import root_local
 
     def canon(b, pl):
-        """(local, field names) of a place, looking through references to locals (`(*p).f` with p = &mut x is x.f)."""
-        l, proj = pl["l"], list(pl["p"])
-        for _ in range(8):
-            if proj and proj[0] == "deref":
-                defs = b.assignments().get(l, [])
-                if len(defs) == 1 and defs[0][1] != "term":
-                    rv = defs[0][2]
-                    if rv["k"] == "ref":
-                        l, proj = rv["place"]["l"], list(rv["place"]["p"]) + proj[1:]
-                        continue
-                    if rv["k"] == "use" and place_of(rv["op"]) is not None:
-                        p2 = place_of(rv["op"])
-                        l, proj = p2["l"], list(p2["p"]) + proj
-                        continue
-            break
-        return (l, tuple(e.get("n", e.get("f")) for e in proj if isinstance(e, dict) and "f" in e))
+        """(local, field names) of a place, looking through references to locals (`(*p).f` with p = &mut x is x.f) and
+        through the captured variables of an inlined closure."""
+        return cfgutil.canon_place(b, pl)
 
     def find_H(b):
         """The accumulator behind the returned Ok value: a local, or a field of a local struct (a progress record
@@ -780,13 +783,30 @@ def highest_version_accumulator(ctx, r):
         cb0 = [s for s in b0.calls() if s.path in FN_TRAIT_CALLS and s.callee.get("rk") != "virtual"
                and any(how == "param" for _, how in prog.call_targets(s))
                and "INDEX_MUTATE" in sem_set(ctx.may.site_events(s))]
-        if not cb0 or b0.is_closure:
+        if not cb0:
             continue
+        from .. import flat as flatmod
+        b = None
+        if b0.is_closure:
+            # the per-record body is a closure handed to an iterator adaptor: the view is the function that writes the
+            # closure, with the adaptor turned into the loop it means and only this closure inlined
+            from ..prov import _closure_sites
+            for (pb, _bb, _rv) in _closure_sites(prog, b0.path):
+                if pb.is_closure:
+                    continue
+                pure = lambda tgt: not ctx.may.all_events(tgt.path) and not ctx.locks.acquires(tgt.path)
+                V = flatmod.flatten(prog, pb, lambda site, tgt, how: how == "direct" and not tgt.reachable and
+                                    not tgt.is_closure and pure(tgt), 4)
+                if b0.path in V.inlined and find_H(V) is not None:
+                    b = V
+                    break
+            if b is None:
+                continue
         # the accumulator may live in the caller of a per-segment helper: the function itself if it has it, else the
         # caller's view with just the helpers on the way inlined (the record reader stays a call: `entry.version`)
-        b = b0 if find_H(b0) is not None else None
         if b is None:
-            from .. import flat as flatmod
+            b = b0 if find_H(b0) is not None else None
+        if b is None:
             chain = [b0.path]
             cur = b0
             for _ in range(3):
@@ -816,30 +836,40 @@ def highest_version_accumulator(ctx, r):
                 loops[hb] = cfgutil.natural_loop(b, hb)
         in_loop = set().union(*loops.values()) if loops else set()
 
-        def terminals_local(l, depth=0, seen=None):
+        def single_copy(l2):
+            """A local that merely holds a copy made elsewhere (a parameter of an inlined helper, a temporary): one
+            definition, a plain use."""
+            d2 = b.assignments().get(l2, [])
+            return len(d2) == 1 and d2[0][1] != "term" and d2[0][2]["k"] == "use"
+
+        def terminals_local(l, depth=0, seen=None, at=None):
+            """(block, kind, value) of the values that reach local l.  `block` is where the choice between the values is
+            made (the arm that assigns), not where a copied operand happened to be computed."""
             seen = seen or set()
             out = []
             if l in seen or depth > 8:
                 return out
             seen.add(l)
-            for (dbb, j, rv) in b.assignments().get(l, []):
+            defs_l = b.assignments().get(l, [])
+            for (dbb, j, rv) in defs_l:
+                here = at if (at is not None and len(defs_l) == 1) else dbb
                 if j == "term":
-                    out.append((dbb, "call", rv))
+                    out.append((here, "call", rv))
                 elif rv["k"] == "use":
                     pl = place_of(rv["op"])
                     if pl is not None and not pl["p"] and l != pl["l"] and not (1 <= pl["l"] <= b.argc) \
                             and b.assignments().get(pl["l"]):
-                        out += terminals_local(pl["l"], depth + 1, seen)
+                        out += terminals_local(pl["l"], depth + 1, seen, at=here if single_copy(pl["l"]) else None)
                     else:
-                        out.append((dbb, "use", rv["op"]))
+                        out.append((here, "use", rv["op"]))
                 elif rv["k"] == "agg" and rv.get("vn") == "Some" and rv["ops"]:
                     pl = place_of(rv["ops"][0])
                     if pl is not None and not pl["p"] and b.assignments().get(pl["l"]) and not (1 <= pl["l"] <= b.argc):
-                        out += terminals_local(pl["l"], depth + 1, seen)
+                        out += terminals_local(pl["l"], depth + 1, seen, at=here if single_copy(pl["l"]) else None)
                     else:
-                        out.append((dbb, "use", rv["ops"][0]))
+                        out.append((here, "use", rv["ops"][0]))
                 else:
-                    out.append((dbb, "other", rv))
+                    out.append((here, "other", rv))
             return out
 
         def terminals(_ignored=None):
@@ -861,7 +891,7 @@ def highest_version_accumulator(ctx, r):
                                 out.append((bb, "use", rv["op"]))
                         else:
                             out.append((bb, "other", rv))
-                    elif not st["lhs"]["p"] and st["lhs"]["l"] == Hl and st["rv"]["k"] == "agg" and \
+                    elif not st["lhs"]["p"] and cfgutil.flows_to(b, st["lhs"]["l"], Hl) and st["rv"]["k"] == "agg" and \
                             st["rv"].get("ak") == "adt" and Hf[0] in (st["rv"].get("fields") or []):
                         # the progress record is built: its field starts with this value
                         op = st["rv"]["ops"][st["rv"]["fields"].index(Hf[0])]
@@ -902,7 +932,10 @@ def highest_version_accumulator(ctx, r):
             where = "%s:%d" % (b.file, b.blocks[dbb]["span"]["line"])
             if dbb not in in_loop:
                 lv = sl.leaves_of_operand(x) if kind == "use" else set()
-                ok = kind == "use" and bool(lv) and all(l[0] == "param" and l[2] for l in lv)
+                # the checkpoint version the replayer was given: a field of its receiver, or a parameter of its own
+                # (a version-typed one)
+                ok = kind == "use" and bool(lv) and all(
+                    l[0] == "param" and (l[2] or "NonZero" in prog.ty_str(b.locals[l[1]])) for l in lv)
                 n_init += 1
                 r.check(ok, "highest-seed", b, "the running maximum is seeded with the checkpoint version (%s)" % where,
                         "the running maximum is seeded at %s with %s" % (where, sorted(fmt_leaf(l) for l in lv) or kind), where)
